@@ -88,7 +88,7 @@ def buildManipulator (env : Env) (m? : Option ManipOpt) (src dst : ParamVar) (ar
 /-- `createVar` -/
 def createVar (env : Env) (v : ParamVar) (defName : String) : Var :=
   let typ := env.derefPtr v.ty
-  { name := if v.name == "" then defName else v.name, typ := env.typeNameF typ, pointer := env.isPtr v.ty,
+  { name := if v.name == "" || v.name == "_" then defName else v.name, typ := env.typeNameF typ, pointer := env.isPtr v.ty,
     external := env.isExternal typ }
 
 def createArgVars (env : Env) : Nat → List ParamVar → List Var
